@@ -58,6 +58,17 @@ CHECKS['C18'] = ('exploration',
     'Trusts harness/reftap.py (self-tested on all 47 streams of unittests/taptests.py and 17 spec-style examples); corners the TAP documents leave open are excluded and counted.',
     'DESIGN.md 3/C18')
 
+CHECKS['C20'] = ('exploration',
+    'exhaustive enumeration of the (requirement, version) grid, SemVer pairs/triples, cfg trees x all assignments and malformed token strings + Hypothesis text, against a transcription of Cargo\'s semver matcher / SemVer section 11 / Boolean evaluation of the generated tree; reference cross-validated against the real cargo binary offline',
+    'Every cell of 2757 requirement spellings (all operators x partial versions over {0..3} x pre-release/build tags x blank spellings) x 125 release versions (+625 pre-release spellings) and comma lists '
+    'of <=3 comparators (quick: a seeded third) is compared with a transcription of the semver crate\'s matcher carrying the two pinned deviations; for pre-release versions only the claimed gate direction is '
+    'demanded. All pairs and ordered triples of a 76-version SemVer set (section 11 chain, numeric/alphanumeric/hyphenated identifiers, build metadata) for order + axioms. All cfg trees of depth <=2 and '
+    '(thorough: all, quick: every 12th) depth-3 trees over 5 atoms x all 40 configurations, value computed from the generated tree (no parse). All token strings of length <=4 (thorough 5) and every '
+    'single-token mutation of rendered trees: text that is malformed under every reading must raise MesonException, nothing may raise anything else. Exhaustive to the stated bounds.',
+    'Trusts harness/refcargo.py, which the selftest validates against real Cargo 1.95 (cargo metadata --offline on path dependencies / target cfg tables) and the pinned table of unittests/cargotests.py; '
+    'behaviour for pre-release versions when a comparator names a pre-release is recorded, not asserted.',
+    'DESIGN.md 3/C20')
+
 NOT_YET = 'no check is registered for this property in this revision (see DESIGN.md section 8 for status)'
 
 
